@@ -11,6 +11,46 @@ pub fn step(sess: &mut Option<Session>, st: &Value) -> Option<Value> {
         scryer_prolog::verif::arm(on);
         return Some(json!({"ok": true}));
     }
+    if let Some(k) = st.get("grow_fail").and_then(|v| v.as_i64()) {
+        scryer_prolog::verif::GROW_FAIL.set(k);
+        return Some(json!({"ok": true}));
+    }
+    if let Some(d) = st.get("virt_limit_rel").and_then(|v| v.as_i64()) {
+        // the main heap pretends to be full d bytes beyond its current length (d < 0: switch off)
+        if d < 0 {
+            scryer_prolog::verif::VIRT_LIMIT.store(0, std::sync::atomic::Ordering::SeqCst);
+        } else if let Some(s) = sess.as_ref() {
+            let fp = scryer_prolog::verif::footprint(&s.machine, "\u{1}");
+            let cells = fp.iter().find(|(k, _)| *k == "heap_cells").map(|(_, v)| *v).unwrap_or(0);
+            scryer_prolog::verif::VIRT_LIMIT
+                .store((cells as usize) * 8 + d as usize, std::sync::atomic::Ordering::SeqCst);
+        }
+        return Some(json!({"ok": true}));
+    }
+    if st.get("grow_attempts").is_some() {
+        let n = scryer_prolog::verif::GROW_ATTEMPTS.swap(0, std::sync::atomic::Ordering::SeqCst);
+        return Some(json!({"grow_attempts": n}));
+    }
+    if let Some(n) = st.get("instr_at").and_then(|v| v.as_i64()) {
+        scryer_prolog::verif::INSTR.set(n);
+        return Some(json!({"ok": true}));
+    }
+    if let Some(on) = st.get("count_instr").and_then(|v| v.as_bool()) {
+        scryer_prolog::verif::COUNT_INSTR.store(on, std::sync::atomic::Ordering::SeqCst);
+        let n = scryer_prolog::verif::INSTR_COUNT.swap(0, std::sync::atomic::Ordering::SeqCst);
+        return Some(json!({"instr_count": n}));
+    }
+    if let Some(prefix) = st.get("footprint").and_then(|v| v.as_str()) {
+        if let Some(s) = sess.as_ref() {
+            let fp = scryer_prolog::verif::footprint(&s.machine, prefix);
+            let mut m = serde_json::Map::new();
+            for (k, v) in fp {
+                m.insert(k.to_string(), json!(v));
+            }
+            return Some(json!({"footprint": Value::Object(m)}));
+        }
+        return Some(json!({"error": "no session"}));
+    }
     if st.get("drain").is_some() {
         let evs = scryer_prolog::verif::drain();
         let evs: Vec<Value> = evs
@@ -28,6 +68,14 @@ pub fn command(cmd: &str, args: &[String]) -> bool {
     match cmd {
         "heapops" => {
             heapops();
+            true
+        }
+        "atoms" => {
+            atoms();
+            true
+        }
+        "charreader" => {
+            charreader();
             true
         }
         _ => false,
@@ -147,6 +195,223 @@ fn heapops() {
             }
         };
         let _ = writeln!(out, "{}", res);
+    }
+    let _ = out.flush();
+}
+
+
+/// C32: N real threads intern overlapping sets of texts in the process-wide atom table, with random
+/// yields at every step of build_with; step events are recorded.
+/// input: {"threads": [[text,..],..], "seed": n, "sleep_us": n, "init_size": bytes}
+fn atoms() {
+    use scryer_prolog::verif as v;
+    use std::io::{BufRead, Write};
+    let mut out = crate::protocol_out();
+    let stdin = std::io::stdin();
+    for line in stdin.lock().lines() {
+        let line = match line {
+            Ok(l) => l,
+            Err(_) => break,
+        };
+        if line.trim().is_empty() {
+            continue;
+        }
+        let sc: Value = match serde_json::from_str(&line) {
+            Ok(v) => v,
+            Err(_) => continue,
+        };
+        let threads: Vec<Vec<String>> = sc["threads"]
+            .as_array()
+            .map(|a| {
+                a.iter()
+                    .map(|t| {
+                        t.as_array()
+                            .map(|x| x.iter().filter_map(|s| s.as_str().map(|s| s.to_string())).collect())
+                            .unwrap_or_default()
+                    })
+                    .collect()
+            })
+            .unwrap_or_default();
+        let seed = sc["seed"].as_u64().unwrap_or(1);
+        let sleep_us = sc["sleep_us"].as_u64().unwrap_or(50);
+        let init_size = sc["init_size"].as_u64().unwrap_or(0) as usize;
+        v::atom_table_release();
+        v::set_atom_table_init_size(init_size);
+        v::atom_table_hold();
+        v::set_atom_trace(Some("sv"));
+        v::set_yield(Some(Box::new(move |tid, _step| {
+            // cheap per-call pseudo random decision from a thread-local xorshift
+            thread_local! { static RNG: std::cell::Cell<u64> = const { std::cell::Cell::new(0) }; }
+            let r = RNG.with(|c| {
+                let mut x = c.get();
+                if x == 0 {
+                    x = seed.wrapping_mul(0x9E3779B97F4A7C15) ^ ((tid as u64 + 1) << 32) | 1;
+                }
+                x ^= x << 13;
+                x ^= x >> 7;
+                x ^= x << 17;
+                c.set(x);
+                x
+            });
+            match r % 4 {
+                0 => std::thread::yield_now(),
+                1 => std::thread::sleep(std::time::Duration::from_micros(r % (sleep_us + 1))),
+                _ => {}
+            }
+        })));
+        let _ = v::drain();
+        v::arm(true);
+        let barrier = std::sync::Arc::new(std::sync::Barrier::new(threads.len().max(1)));
+        let mut handles = Vec::new();
+        for (i, texts) in threads.iter().enumerate() {
+            let texts = texts.clone();
+            let b = barrier.clone();
+            handles.push(std::thread::spawn(move || {
+                v::set_tid(i as u32 + 1);
+                b.wait();
+                let mut res = Vec::new();
+                for t in texts.iter() {
+                    let r = std::panic::catch_unwind(|| v::intern(t));
+                    match r {
+                        Ok((idx, back)) => res.push(json!({"text": t, "atom": idx, "back": back})),
+                        Err(_) => res.push(json!({"text": t, "panic": true})),
+                    }
+                }
+                res
+            }));
+        }
+        let mut results = Vec::new();
+        for h in handles {
+            match h.join() {
+                Ok(r) => results.push(json!(r)),
+                Err(_) => results.push(json!({"panic": true})),
+            }
+        }
+        v::arm(false);
+        v::set_yield(None);
+        v::set_atom_trace(None);
+        let evs: Vec<Value> = v::drain()
+            .iter()
+            .map(|s| serde_json::from_str(s).unwrap_or(json!({"bad": s})))
+            .collect();
+        // read every atom's text back once more, after all growth happened
+        let mut later = Vec::new();
+        for r in results.iter() {
+            if let Some(a) = r.as_array() {
+                for x in a {
+                    if let Some(idx) = x["atom"].as_u64() {
+                        let t = std::panic::catch_unwind(|| v::atom_text(idx)).unwrap_or_else(|_| "<panic>".into());
+                        later.push(json!({"atom": idx, "text": t}));
+                    }
+                }
+            }
+        }
+        let _ = writeln!(out, "{}", json!({"results": results, "events": evs, "later": later}));
+    }
+    v::atom_table_release();
+    let _ = out.flush();
+}
+
+struct Chunked {
+    chunks: std::collections::VecDeque<Vec<u8>>,
+}
+
+impl std::io::Read for Chunked {
+    fn read(&mut self, buf: &mut [u8]) -> std::io::Result<usize> {
+        loop {
+            match self.chunks.front_mut() {
+                None => return Ok(0),
+                Some(c) if c.is_empty() => {
+                    self.chunks.pop_front();
+                    continue;
+                }
+                Some(c) => {
+                    let n = c.len().min(buf.len());
+                    buf[..n].copy_from_slice(&c[..n]);
+                    c.drain(..n);
+                    if c.is_empty() {
+                        self.chunks.pop_front();
+                    }
+                    return Ok(n);
+                }
+            }
+        }
+    }
+}
+
+/// C18: drive the real CharReader over a byte source delivered in the given chunks.
+/// input: {"chunks": [[b,..],..], "ops": ["read" | "peek" | "putback:<cp>" | "consume:<n>" | "readbytes:<n>"]}
+fn charreader() {
+    use std::io::{BufRead, Write};
+    let mut out = crate::protocol_out();
+    let stdin = std::io::stdin();
+    for line in stdin.lock().lines() {
+        let line = match line {
+            Ok(l) => l,
+            Err(_) => break,
+        };
+        if line.trim().is_empty() {
+            continue;
+        }
+        let sc: Value = match serde_json::from_str(&line) {
+            Ok(v) => v,
+            Err(_) => continue,
+        };
+        let chunks: std::collections::VecDeque<Vec<u8>> = sc["chunks"]
+            .as_array()
+            .map(|a| {
+                a.iter()
+                    .map(|c| {
+                        c.as_array()
+                            .map(|x| x.iter().map(|b| b.as_u64().unwrap_or(0) as u8).collect())
+                            .unwrap_or_default()
+                    })
+                    .collect()
+            })
+            .unwrap_or_default();
+        let ops: Vec<String> = sc["ops"]
+            .as_array()
+            .map(|a| a.iter().filter_map(|s| s.as_str().map(|s| s.to_string())).collect())
+            .unwrap_or_default();
+        let mut rdr = scryer_prolog::verif::CharReaderProbe::new(Box::new(Chunked { chunks }));
+        let mut res: Vec<Value> = Vec::new();
+        for op in ops.iter() {
+            let r = std::panic::catch_unwind(std::panic::AssertUnwindSafe(|| {
+                let conv = |x: Option<std::io::Result<char>>| match x {
+                    None => json!({"eof": true}),
+                    Some(Ok(c)) => json!({"c": c as u32}),
+                    Some(Err(e)) => json!({"err": format!("{}", e)}),
+                };
+                if op == "read" {
+                    conv(rdr.read_char())
+                } else if op == "peek" {
+                    conv(rdr.peek_char())
+                } else if let Some(cp) = op.strip_prefix("putback:") {
+                    let c = char::from_u32(cp.parse::<u32>().unwrap_or(97)).unwrap_or('a');
+                    rdr.put_back_char(c);
+                    json!({"ok": true})
+                } else if let Some(n) = op.strip_prefix("consume:") {
+                    rdr.consume(n.parse::<usize>().unwrap_or(0));
+                    json!({"ok": true})
+                } else if let Some(n) = op.strip_prefix("readbytes:") {
+                    let mut buf = vec![0u8; n.parse::<usize>().unwrap_or(0)];
+                    match rdr.read_bytes(&mut buf) {
+                        Ok(k) => json!({"bytes": buf[..k].to_vec()}),
+                        Err(e) => json!({"err": format!("{}", e)}),
+                    }
+                } else {
+                    json!({"error": "unknown op"})
+                }
+            }));
+            match r {
+                Ok(v) => res.push(v),
+                Err(_) => {
+                    res.push(json!({"panic": crate::take_panic()}));
+                    break;
+                }
+            }
+        }
+        let _ = writeln!(out, "{}", json!({"res": res}));
     }
     let _ = out.flush();
 }
